@@ -711,3 +711,8 @@ package zerolog
 //@ effect allocfree exempt (*Array).Err call:(internal/cbor.Encoder).AppendInterface : as for AnErr
 //@ effect allocfree exempt (*Event).msg call:fmt.Fprintf : only when the destination returned an error and no ErrorHandler is set
 //@ effect allocfree exempt (Level).String call:strconv.Itoa : only for a level outside TraceLevel..PanicLevel, NoLevel and Disabled; the listed level methods pass none
+
+// ---------------------------------------------------------------------------
+// C06: which Write methods are event destinations (see /verif/govc/sweep_ownership.go)
+//@ effect noretain skip /hlog/internal/mutil x : the response-writer proxies carry HTTP bodies, not events
+//@ effect noretain skip /pkgerrors x : state.Write is the fmt.State of the stack-trace formatter, not an event destination
